@@ -25,6 +25,7 @@ type c06Case struct {
 	Motion string `json:"motion,omitempty"` // for vi-yank-to: the motion keys
 	Comp   bool   `json:"comp"`
 	Multi  bool   `json:"multi"`
+	Bound  []string `json:"bound,omitempty"` // invariants: commands without a default binding, bound to C-x C-z a, b, ...
 }
 
 // commands documented as pure movements or copies, by name
@@ -68,6 +69,17 @@ func c06Gen(r *rand.Rand, tier string, idx int) any {
 		c.Comp = r.Intn(2) == 0
 		c.Multi = r.Intn(3) == 0
 		c.Plan = limitDigits(genScript(r, c.Mode == "vi", 3+r.Intn(30)), 4)
+		if ub := unboundCommands(); len(ub) > 0 && r.Intn(3) == 0 {
+			// commands no default keymap binds (a user configuration can): see C01
+			for i, n := 0, 1+r.Intn(6); i < n; i++ {
+				c.Bound = append(c.Bound, pick(r, ub))
+			}
+			for i, n := 0, 1+r.Intn(2*len(c.Bound)); i < n; i++ {
+				st := sess.Step{W: c01Probe + string(rune('a'+r.Intn(len(c.Bound)))), Tag: "unbound-by-default"}
+				at := r.Intn(len(c.Plan) + 1)
+				c.Plan = append(c.Plan[:at], append([]sess.Step{st}, c.Plan[at:]...)...)
+			}
+		}
 		if c.Mode == "vi" && len(c.Hist) > 0 && r.Intn(3) == 0 {
 			// history searches from command mode whose text is a whole entry (the cursor is put
 			// at the length of the text: the end of the line), or an incremental search
@@ -254,6 +266,11 @@ func c06Run(env *fw.Env, raw json.RawMessage) fw.Outcome {
 		if c.Multi {
 			s.Sh.AcceptMultiline = func(l []rune) bool { return len(l) == 0 || l[len(l)-1] != '\\' }
 		}
+		for i, name := range c.Bound {
+			for _, km := range []string{"emacs", "vi-insert", "vi-command", "vi-visual"} {
+				s.Sh.Config.Bind(km, c01Probe+string(rune('a'+i)), name, false)
+			}
+		}
 		if c.Kind == "movement" {
 			inner := s.Sh.Keymap.Commands()[c.Cmd]
 			s.Sh.Keymap.Register(map[string]func(){"verif-ran": func() {}})
@@ -264,7 +281,7 @@ func c06Run(env *fw.Env, raw json.RawMessage) fw.Outcome {
 	s := sess.New(env.T, env.Scratch, cfg)
 	defer s.Close()
 	res := s.Call(c.Plan, retExit)
-	ctx := fmt.Sprintf("kind=%s mode=%s cmd=%s numarg=%q argkey=%q motion=%q", c.Kind, c.Mode, c.Cmd, c.NumArg, c.ArgKey, c.Motion)
+	ctx := fmt.Sprintf("kind=%s mode=%s cmd=%s numarg=%q argkey=%q motion=%q bound-for-the-case=%v", c.Kind, c.Mode, c.Cmd, c.NumArg, c.ArgKey, c.Motion, c.Bound)
 	for i := range res.Waits {
 		o.O.Events++
 		c06Invariants(&o, &res.Waits[i], ctx)
